@@ -31,6 +31,21 @@ mod verif_battery_c08_file {
         assert_eq!(before, std::fs::read_to_string(&existing).unwrap(), "an interrupted rewrite corrupted the existing file");
         let _ = std::fs::remove_dir_all(&dir);
     }
+    #[test]
+    #[cfg(not(windows))]
+    fn c08_a_write_that_cannot_reach_the_disk_is_not_published_as_success() {
+        // the temp name leads to /dev/full: every write fails with ENOSPC, as on a full disk
+        let dir = std::env::temp_dir().join(format!("verif_c08_full_{}", std::process::id()));
+        let _ = std::fs::remove_dir_all(&dir);
+        std::fs::create_dir_all(&dir).unwrap();
+        let target = dir.join("k.key");
+        std::os::unix::fs::symlink("/dev/full", dir.join("k.tmp")).unwrap();
+        let r = super::json_write_to_file(&serde_json::json!({"guid": "g", "key": "0123456789abcdef"}), &target);
+        let published = std::fs::symlink_metadata(&target).is_ok();
+        let _ = std::fs::remove_dir_all(&dir);
+        assert!(r.is_err(), "the write could not reach the disk, yet json_write_to_file returned Ok (published under the final name: {})", published);
+        assert!(!published, "a file that was never written was put under the final name");
+    }
 }
 '''
 
@@ -59,6 +74,14 @@ mod verif_battery_c08_key {
         KeyKeeper::store_key(&d, &k).unwrap();
         let f = KeyKeeper::fetch_key(&d, "33333333-3333-3333-3333-333333333333").expect("stored key not found under its guid");
         assert!(f.guid == k.guid && f.key == k.key);
+        // a guid with upper-case hex digits and one with surrounding blanks: whatever the host issues is what is looked up after a restart
+        for g in ["ABCDEF12-3333-4333-8333-ABCDEFABCDEF", "AbCdEf12-3333-4333-8333-abcdefABCDEF"] {
+            let k2 = key(g, "DDDD");
+            KeyKeeper::store_key(&d, &k2).unwrap();
+            assert!(KeyKeeper::check_key(&d, &k2).is_ok());
+            let f2 = KeyKeeper::fetch_key(&d, g).unwrap_or_else(|e| panic!("the key stored under guid {} is not found again: {}", g, e));
+            assert!(f2.guid == k2.guid && f2.key == k2.key);
+        }
         let _ = std::fs::remove_dir_all(&d);
     }
 }
@@ -82,6 +105,16 @@ mod verif_battery_c09_status {
         let s = status(Some("enforce"), Some("audit"), Some("disabled"));
         assert_eq!(s.get_wireserver_rule_id(), "ws-id"); assert_eq!(s.get_imds_rule_id(), "imds-id"); assert_eq!(s.get_hostga_rule_id(), "hga-id");
         assert_eq!(s.get_wireserver_rules().unwrap().mode, "enforce"); assert_eq!(s.get_imds_rules().unwrap().mode, "audit"); assert_eq!(s.get_hostga_rules().unwrap().mode, "disabled");
+    }
+    #[test]
+    fn c09_mode_getters_fold_the_letter_case_of_the_mode() {
+        for m in ["Disabled", "DISABLED", "disabled"] {
+            let s = status(Some(m), Some(m), None);
+            assert_eq!(s.get_wire_server_mode(), "disabled", "WireServer mode {:?}", m);
+            assert_eq!(s.get_imds_mode(), "disabled", "IMDS mode {:?}: the poll loop compares this with 'disabled' to switch interception off", m);
+        }
+        assert_eq!(status(Some("Enforce"), Some("AUDIT"), None).get_imds_mode(), "audit");
+        assert_eq!(status(None, None, None).get_imds_mode(), "disabled");
     }
     #[test]
     fn c09_state_string_changes_when_any_mode_changes() {
@@ -629,6 +662,8 @@ BATTERIES = {
 def confirm(rep, pid):
     # violations listed in known_findings.json were replayed when they were recorded (artefacts under /verif/findings)
     known = {f.get("key") for f in load_known_findings().get("findings", []) if f.get("property") == pid}
+    if getattr(rep, "tier", "quick") == "thorough":
+        known = set()          # the thorough tier replays the listed findings again (a finding that stopped reproducing shows as "symbolic only")
     pending = [q for q in rep.queries if q.status == "violated" and q.reproduced is None and q.key not in known]
     if not pending or pid not in BATTERIES:
         return
